@@ -297,8 +297,10 @@ func init() {
 					us = append(us, c11PoolUnit(vh.Badger, 4, s, 12))
 				}
 			} else {
+				for s := 0; s < 9; s++ {
+					us = append(us, c11StoreUnit(vh.Memory, 5, s, 9))
+				}
 				for s := 0; s < 6; s++ {
-					us = append(us, c11StoreUnit(vh.Memory, 4, s, 6))
 					us = append(us, c11StoreUnit(vh.Badger, 4, s, 6))
 				}
 				for s := 0; s < 4; s++ {
